@@ -475,9 +475,9 @@ func runReal(c *harness.Ctx) harness.Result {
 
 func init() {
 	harness.Register(&harness.Check{
-		ID:    "C13",
-		Level: "exploration",
-		Rule: "part synth: ELF64 files (header + program headers) generated under linker constraints (1-4 PT_LOAD sorted by vaddr, off = vaddr mod page, non-zero first vaddr, bss, neighbours packed onto one file page or on separate pages, 4 KiB or 2 MiB alignment, ET_DYN/ET_EXEC), loader simulation at a random page-aligned bias, the executable mapping whole or split in two; addresses at segment start, end-1, interior; result must be address - bias, an error only counts in the unambiguous class, a wrong address always counts; further addresses through the same object file. part protocol: an interposed llvm-symbolizer echoes the address it is sent: it must be the link-time address. part nm: generated sorted symbol tables (duplicates, zero sizes, adjacent, text/data types, junk lines) behind an interposed nm, probed at start-1, start, start+1, end-1, end of every symbol and outside the table. part real: the same C program built with gcc/clang as -pie, -no-pie, noseparate-code, max-page-size=2MiB, -Ttext-segment; loader-simulated from its real headers at three biases; ObjAddr exact and SourceLine (llvm-symbolizer and nm) names the function whose symbol-table range contains the address. non-trivial = every case; distinct = layout + bias",
+		ID:          "C13",
+		Level:       "exploration",
+		Rule:        "part synth: ELF64 files (header + program headers) generated under linker constraints (1-4 PT_LOAD sorted by vaddr, off = vaddr mod page, non-zero first vaddr, bss, neighbours packed onto one file page or on separate pages, 4 KiB or 2 MiB alignment, ET_DYN/ET_EXEC), loader simulation at a random page-aligned bias, the executable mapping whole or split in two; addresses at segment start, end-1, interior; result must be address - bias, an error only counts in the unambiguous class, a wrong address always counts; further addresses through the same object file. part protocol: an interposed llvm-symbolizer echoes the address it is sent: it must be the link-time address. part nm: generated sorted symbol tables (duplicates, zero sizes, adjacent, text/data types, junk lines) behind an interposed nm, probed at start-1, start, start+1, end-1, end of every symbol and outside the table. part real: the same C program built with gcc/clang as -pie, -no-pie, noseparate-code, max-page-size=2MiB, -Ttext-segment; loader-simulated from its real headers at three biases; ObjAddr exact and SourceLine (llvm-symbolizer and nm) names the function whose symbol-table range contains the address. non-trivial = every case; distinct = layout + bias",
 		Assumptions: []string{"page size 4 KiB", "unambiguous class = the address lies in the file-backed part of exactly one PT_LOAD and no other segment has file content on the same page, mapping not split", "layouts are those the generator and the installed compilers produce"},
 		Parts: []harness.Part{
 			{Name: "synth", Quick: 6000, Thor: 300000, Run: runSynth},
